@@ -150,6 +150,6 @@ CHECKS = [
     Check("planner_sim", sim_execute([J.judge_c06], J.nontrivial_c06, planner=True, max_steps=1500),
           strategy=lambda tier: specs.planner_worlds(max_jobs=4, flags=cancel_flags()), budget={"quick": 128, "thorough": 4000}),
     Check("scripted_sim", sim_execute([J.judge_c06], J.nontrivial_c06, max_steps=1500), strategy=lambda tier: specs.scripted_worlds(flags=cancel_flags()),
-          budget={"quick": 500, "thorough": 30000}),
+          budget={"quick": 1500, "thorough": 40000}),
     Check("task_guards", exec_lifecycle, strategy=lambda tier: lifecycle_cases(), budget={"quick": 4000, "thorough": 200000}, case_timeout=60),
 ]
